@@ -6,7 +6,7 @@ import machine
 from props import c03
 
 ID = "C05"
-LEAN_MODULES = ["QProps.C05"]
+LEAN_MODULES = ["QProps.C05", "QProps.C05h"]
 THEOREMS = [
     "MM.labels_aligned_after_accept",
     "MM.inserted_particle_one_label",
@@ -17,6 +17,8 @@ THEOREMS = [
     "MM.ginv_trial",
     "MM.gc_history",
     "MM.fixedOK_delete",
+    "MM.ginv_trial_pos",
+    "MM.gc_mixed_history",
     "MM.composite_insertion_shares_label",
     "MM.notifyRefs_spec",
     "MM.onAtomsChanged_length",
